@@ -239,3 +239,353 @@ def replay_seq(ctx, payload):
         return 1
     print("replay: property holds on this script now")
     return 0
+
+
+# =====================================================================================================
+# Concurrent part: producers + the real worker thread + a control thread under the controlled scheduler
+# (harness/h_logthr.c -DLOGTHR_CONC with tsan instrumentation only, sched_rt.c, sched_wrap_lock.c,
+# sched_wrap_logthr.c).  The effective schedule of the implementation run is replayed on the extracted
+# interleaving model (coq/LogThrModel.v part B, fixed = true) and the traces are compared line by line
+# at the level of synchronisation operations + target writes.
+# =====================================================================================================
+from vlib import sched as S
+
+CONC_WRAPS = ["-Wl,--wrap=sem_init", "-Wl,--wrap=sem_destroy", "-Wl,--wrap=sem_post", "-Wl,--wrap=sem_wait",
+              "-Wl,--wrap=sem_getvalue", "-Wl,--wrap=pthread_create", "-Wl,--wrap=pthread_join",
+              "-Wl,--wrap=pthread_exit"]
+
+
+def build_conc():
+    lib = C.build_lib()
+    return S.build_mixed("h_logthr_conc", [("h_logthr.c", S.TSAN_FLAGS + ["-DLOGTHR_CONC"]),
+                                           ("sched_rt.c", S.PLAIN_FLAGS), ("sched_wrap_lock.c", S.PLAIN_FLAGS),
+                                           ("sched_wrap_logthr.c", S.PLAIN_FLAGS)], lib=lib,
+                         ldflags=S.LOCK_WRAPS + CONC_WRAPS)
+
+LIMIT = 512000          # only for sizing the generated backlog cases; the model uses the regenerated constant
+REC = 48
+
+
+# ------------------------------------------------------------------ concurrent: generator
+def conc_corpus():
+    return [
+        # witness of the lost record (fixes/C16-3): the worker takes the last record's post after stop set the flag
+        # and before stop's own post
+        ["p 0 20", "m stop", "run 2 2 2 2 0 0 0 0 1 1 1 1 1 0 0"],
+        # same with two records queued
+        ["p 0 20", "p 0 30", "m stop", "run 2 2 2 2 2 2 2 2 0 0 0 0 1 1 1 1 1 1 1 1 1 0 0"],
+        # witness of close-during-write (fixes/C16-4): close while the worker is inside the logger callback
+        ["p 0 20", "p 0 21", "m x", "m stop", "run 2 2 2 2 1 1 0 1 1 2 2 2 2 0 0"],
+        # control operations while the worker is busy
+        ["p 0 20", "p 0 30", "p 0 40", "m c 0", "m c 1", "m c 1", "m x", "m c 1", "m stop",
+         "run 2 2 2 2 1 1 0 0 1 0 2 2 0 0 0 2 2 1 1 1 0 0 0 2 2 2 2 0 0 1 1"],
+        # two producers interleaved (the second one's call can be turned away by the in_logger guard)
+        ["p 0 20", "p 1 30", "p 0 22", "p 1 33", "m stop", "run 2 3 2 3 2 3 2 3 1 1 1 2 3 2 3 2 3 1 1 0 0 0"],
+        # backlog limit: 130 records of 4000 bytes while the worker does not run, then drain
+        ["p 0 4000"] * 130 + ["p 0 100", "m stop", "run " + " ".join(["2"] * 600) + " 1 1 1 1 1 1 2 2 2 2"],
+    ]
+
+
+def conc_gen_sched(rng, nthr, length, bias):
+    out = []
+    p = rng.choice([0.1, 0.25, 0.5, 0.8])
+    cur = rng.randrange(nthr)
+    while len(out) < length:
+        out.append(cur)
+        if rng.random() < p:
+            r = rng.random()
+            cur = bias if r < 0.25 else rng.randrange(nthr)
+    return out
+
+
+def conc_gen_case(rng, kind):
+    ops = []
+    if kind == "backlog":
+        # around the limit: n records of size sz so that n * (REC + sz + 1) straddles LIMIT, worker held back
+        sz = rng.choice([4000, 3000, 2047, 1000])
+        per = REC + sz + 1
+        n = LIMIT // per + rng.choice([-2, -1, 0, 1, 2, 5])
+        ops += ["p 0 %d" % sz] * max(1, n)
+        last = LIMIT - (LIMIT // per) * per - REC - 1 + rng.choice([-1, 0, 1])
+        if 12 <= last <= 4000:
+            ops.append("p 0 %d" % last)
+        ops += ["p 0 %d" % rng.choice([12, 100, 4000])] * rng.randrange(0, 4)
+        ops.append("m stop")
+        nmsg = len(ops) - 1
+        hold = rng.choice([nmsg * 4 - 8, nmsg * 4, nmsg * 2])
+        sched = [2] * hold + conc_gen_sched(rng, 3, 60, 1)
+        ops.append("run " + " ".join(str(x) for x in sched))
+        return ops
+    nprod = 1 if kind == "single" else rng.choice([2, 2, 3])
+    nmsgs = 0
+    for i in range(nprod):
+        for _ in range(rng.randrange(1, 6)):
+            ops.append("p %d %d" % (i, rng.choice([12, 20, 100, 511, 512, 513, 4000])))
+            nmsgs += 1
+    nctl = 0
+    if kind != "quiet" and rng.random() < 0.7:
+        for _ in range(rng.randrange(1, 5)):
+            r = rng.random()
+            ops.append("m c 0" if r < 0.35 else "m c 1" if r < 0.75 else "m x")
+            nctl += 1
+    ops.append("m stop")
+    nthr = 2 + nprod
+    length = 6 * nmsgs + 4 * nctl + 12
+    ops.append("run " + " ".join(str(x) for x in conc_gen_sched(rng, nthr, length, rng.choice([0, 1, 1]))))
+    return ops
+
+
+# ------------------------------------------------------------------ concurrent: monitor (independent of the model)
+def conc_monitor(case, lines, crash):
+    """C16 over the implementation log of one schedule-controlled run.  Returns (message or None, guard_losses):
+    nothing crashes, the run terminates, the close callback never runs during a logger callback, no message is
+    written twice, each producer's messages are written in the order it logged them, and when qb_log_fini has
+    returned every message logged while the target was enabled has been written, or was counted in a
+    "messages lost" report, or was taken off the queue while the target was disabled."""
+    mops = [l.split()[1:] for l in case if l.startswith("m ")]
+    nprod = 1 + max([int(l.split()[1]) for l in case if l.startswith("p ")] + [-1])
+    if crash:
+        return "implementation crashed / sanitizer report (rc=%s): %s" % (crash[0], crash[1][-600:]), 0
+    if "begin" not in lines:
+        return "the logging thread did not start: %s" % lines[-3:], 0
+    body = lines[lines.index("begin") + 1:]
+    for l in body:
+        if l.startswith("note"):
+            return l, 0
+    written = []                 # (i, k) in order
+    lost_reported = 0
+    ended = None
+    final = None
+    stopped = False
+    # the monitor's own view of the target: enabled / closed, changed at the lock step of a control call
+    enabled, closed = True, False
+    mop_i = -1
+    cur_op = None
+    in_call = {}                 # producer -> True while it is inside a log call that went on to post
+    logged = {}                  # (i, k) -> "enabled" | "disabled" | "guard?"
+    seq = {}
+    steps_of = {}
+    for idx, l in enumerate(body):
+        if l.startswith("s "):
+            p = l.split(" ", 2)
+            steps_of.setdefault(int(p[1]), []).append((idx, p[2]))
+    nxt = {}
+    for t, st in steps_of.items():
+        for j, (idx, lab) in enumerate(st):
+            nxt[idx] = st[j + 1][1] if j + 1 < len(st) else None
+    guard_losses = 0
+    unexplained = []
+    for idx, l in enumerate(body):
+        p = l.split()
+        if p[0] == "s":
+            t = int(p[1])
+            lab = " ".join(p[2:])
+            if t == 0:
+                if lab == "ctl":
+                    mop_i += 1
+                    cur_op = mops[mop_i] if mop_i < len(mops) else None
+                elif lab.startswith("lock") and cur_op:
+                    if cur_op[0] == "c" and not closed:
+                        enabled = cur_op[1] != "0"
+                    elif cur_op[0] == "x":
+                        enabled, closed = False, True
+                    cur_op = None if cur_op[0] != "stop" else cur_op
+            elif t >= 2:
+                i = t - 2
+                if lab == "log":
+                    k = seq.get(i, 0)
+                    seq[i] = k + 1
+                    goes_on = nxt[idx] is not None and nxt[idx].startswith("lock")
+                    if goes_on:
+                        in_call[i] = True
+                        logged[(i, k)] = "queued"
+                    elif not enabled:
+                        logged[(i, k)] = "disabled"
+                    else:
+                        # logged while the target was enabled but never handed to the logging thread
+                        others = [j for j, v in in_call.items() if v and j != i]
+                        if others:
+                            guard_losses += 1
+                            logged[(i, k)] = "guard"
+                        else:
+                            unexplained.append((i, k))
+                elif lab.startswith("post") or (lab.startswith("unlock") and (nxt[idx] is None or not nxt[idx].startswith("post"))):
+                    in_call[i] = False
+        elif p[0] == "w":
+            written.append((int(p[1]), int(p[2])))
+        elif len(p) == 3 and p[1] == "messages" and p[2] == "lost":
+            lost_reported += int(p[0])
+        elif p[0] == "close" and cur_op and cur_op[0] == "x" and not closed:
+            enabled, closed = False, True         # code as found: close without the pause
+        elif p[0] == "stopped":
+            stopped = True
+        elif p[0] == "end":
+            ended = int(p[1])
+        elif p[0] == "final":
+            final = [int(x) for x in p[1:]]
+    if ended is None:
+        return "run did not complete", guard_losses
+    if ended == 1 and any(o[0] == "stop" for o in mops):
+        return "deadlock: " + "; ".join(x for x in body if x.startswith("blocked")), guard_losses
+    if ended == 2:
+        return "step limit exceeded (livelock)", guard_losses
+    if len(set(written)) != len(written):
+        dup = [w for w in written if written.count(w) > 1][0]
+        return "message %d.%d was written twice" % dup, guard_losses
+    for i in range(nprod):
+        ks = [k for j, k in written if j == i]
+        if ks != sorted(ks):
+            return "producer %d's messages were written out of order: %s" % (i, ks), guard_losses
+    for w in written:
+        if logged.get(w) != "queued":
+            return "message %d.%d was written but never queued" % w, guard_losses
+    if unexplained:
+        return "message %d.%d was logged while the target was enabled but never reached the logging thread" % unexplained[0], guard_losses
+    if stopped:
+        if final is None:
+            return "no final state reported", guard_losses
+        queued = [w for w, v in logged.items() if v == "queued"]
+        missing = [w for w in queued if w not in set(written)]
+        dropped_total = lost_reported + final[1]
+        ctl_ops = [o for o in mops if o[0] in ("c", "x")]
+        disabling = [o for o in ctl_ops if o[0] == "x" or o[1] == "0"]
+        if final[2] != 0:
+            return "qb_log_fini returned with %d record(s) still queued (never written): %s" % (final[2], sorted(missing)[:4]), guard_losses
+        if not disabling and len(missing) != dropped_total:
+            return ("%d queued message(s) were not written (%s) but %d were reported lost" %
+                    (len(missing), sorted(missing)[:4], dropped_total)), guard_losses
+        if len(missing) < dropped_total:
+            return "%d messages reported lost but only %d are missing" % (dropped_total, len(missing)), guard_losses
+        if final[0] != 0:
+            return "logt_memory_used is %d after everything was written" % final[0], guard_losses
+    return None, guard_losses
+
+
+# ------------------------------------------------------------------ concurrent: run
+def conc_filter(lines):
+    """the part of the implementation trace that is compared with the model"""
+    if "begin" not in lines:
+        return lines
+    out = []
+    teardown = False
+    for l in lines[lines.index("begin"):]:
+        if l.startswith("note ") or l.startswith("blocked"):
+            continue
+        if teardown and l.startswith("s 0 "):
+            continue                      # qb_log_fini after the join: destroying locks, log_dcs / array teardown
+        if l == "s 0 join T1":
+            teardown = True
+        out.append(l)
+    return out
+
+
+def conc_execute(cases, exe, model):
+    texts = ["\n".join(c) + "\n" for c in cases]
+    impl = C.run_cases(exe, texts, timeout=900)
+    mcases = []
+    for case, (lines, crash) in zip(cases, impl):
+        cfg = "\n".join("conc " + l for l in case if not l.startswith("run"))
+        mcases.append("model fixed\n" + cfg + "\n" + "\n".join(conc_filter(lines)) + "\n")
+    mod = C.run_cases(model, mcases, timeout=900)
+    return impl, mod
+
+
+STARTUP = ["s 0 start", "s 0 create", "s 1 start", "s 1 post S0", "s 0 wait S0"]
+
+
+def conc_judge(case, impl, mod):
+    lines, crash = impl
+    sub_crash = [l for l in lines if l.startswith("crash")]
+    if sub_crash and not crash:
+        crash = (sub_crash[0], "; ".join(x[4:] for x in lines if x.startswith("san ")))
+    m, gl = conc_monitor(case, lines, crash)
+    if m:
+        return ("impl-monitor", m, {"impl_tail": lines[-12:]}), gl
+    if "begin" in lines:
+        pre = [l for l in lines[:lines.index("begin")] if l.startswith("s ") and not l.endswith(" start")]
+        want = [l for l in STARTUP if not l.endswith(" start")]
+        if pre != want:
+            return ("correspondence", "start-up steps of qb_log_thread_start differ: %r" % pre, {}), gl
+    if mod[1]:
+        return ("correspondence", "model runner failed", mod[1][1]), gl
+    d = C.first_diff(conc_filter(lines), mod[0])
+    if d:
+        return ("correspondence", "concurrent trace: event %d differs: impl %r model %r" % d, {"first_difference": d}), gl
+    return None, gl
+
+
+def run_conc(ctx, res, thorough):
+    exe = build_conc()
+    model = C.build_model(ID)
+    rng = ctx.rng
+    n = 2500 if thorough else 400
+    cases = conc_corpus()
+    kinds = {"corpus": len(cases)}
+    for i in range(n):
+        kind = ["single", "quiet", "multi", "multi", "single"][i % 5]
+        if i % 100 == 7:
+            kind = "backlog"
+        kinds[kind] = kinds.get(kind, 0) + 1
+        cases.append(conc_gen_case(rng, kind))
+    impl, mod = conc_execute(cases, exe, model)
+    steps, labels, guard_total, drops = 0, {}, 0, 0
+    for ci, case in enumerate(cases):
+        lines = impl[ci][0]
+        seq = []
+        for l in lines:
+            if l.startswith("s "):
+                p = l.split(" ", 2)
+                seq.append(p[1])
+                lab = p[2].split(" = ")[0]
+                labels[lab] = labels.get(lab, 0) + 1
+            elif l.endswith("messages lost"):
+                drops += int(l.split()[0])
+        steps += len(seq)
+        switches = sum(1 for a, b in zip(seq, seq[1:]) if a != b)
+        res.add_case(("conc",) + tuple(case), switches >= 4)
+        v, gl = conc_judge(case, impl[ci], mod[ci])
+        guard_total += gl
+        if v is None:
+            res.traces_validated += 1
+            continue
+        kind = v[0]
+
+        def fails(sub):
+            full = sub + [case[-1]]
+            im, mo = conc_execute([full], exe, model)
+            j, _ = conc_judge(full, im[0], mo[0])
+            return j is not None and j[0] == kind
+        body = case[:-1]
+        small = C.shrink_list(body, fails, budget=30) if len(res.violations) < 2 and 1 < len(body) < 60 else body
+        full = small + [case[-1]]
+        im, mo = conc_execute([full], exe, model)
+        j, _ = conc_judge(full, im[0], mo[0])
+        j = j or v
+        res.violation(j[0], j[1], {"part": "concurrent", "script": full, "impl_out": conc_filter(im[0][0])[-400:],
+                                   "model_out": mo[0][0][-400:], "detail": j[2]})
+        if len(res.violations) >= 6:
+            break
+    res.extra.update({"conc_cases": len(cases), "conc_case_kinds": kinds, "conc_scheduled_steps": steps,
+                      "conc_steps_by_label": labels, "conc_messages_reported_lost": drops,
+                      "conc_in_logger_guard_losses": guard_total})
+    rule = ("concurrent: 1-3 producers (1-5 messages each, or ~130-500 records around the 512000-byte backlog limit), "
+            "the real worker thread and a control thread (enable/disable/close, then join + qb_log_fini) under a "
+            "controlled schedule (random runs of geometric length, biased towards the control thread or the worker); "
+            "non-trivial = at least 4 context switches; distinct = distinct (programs, schedule)")
+    return rule, [{"part": "concurrent", "script": c} for c in cases[len(conc_corpus()):len(conc_corpus()) + 2]], guard_total
+
+
+def replay_conc(ctx, payload):
+    exe = build_conc()
+    model = C.build_model(ID)
+    case = payload["script"]
+    im, mo = conc_execute([case], exe, model)
+    j, _ = conc_judge(case, im[0], mo[0])
+    print("impl :", conc_filter(im[0][0])[-60:])
+    print("model:", mo[0][0][-60:])
+    if j:
+        print("VIOLATION property=%s replay=%s" % (ID, "<replayed>"))
+        print("DETAIL: %s: %s" % (j[0], j[1]))
+        return 1
+    print("replay: property holds on this script now")
+    return 0
